@@ -69,7 +69,14 @@ func VerifC16Update() {
 	// actual text: arbitrary short bytes, or a text containing a marker line
 	var actual string
 	marker := false
-	switch rt.IntRange(0, 3) {
+	switch rt.IntRange(0, 4) {
+	case 4:
+		// a marker line ending in CR LF
+		c := rt.Byte()
+		rt.Assume(c != '\n' && c != '\r' && c < 0x80)
+		actual = "-- m --\r\n" + string([]byte{c}) + "\n"
+		marker = true
+		rt.Reach("actual-has-crlf-marker")
 	case 3:
 		// lines ending in CR LF (representable in txtar: the text ends with a newline)
 		c := rt.Byte()
